@@ -260,8 +260,31 @@ theorem fr_handleResendRequest (s : Sess) (m : InMsg) : Fr s (handleResendReques
 theorem fr_logonReply (s : Sess) (m : InMsg) (flag : Bool) : Fr s (logonReply s m flag) := by
   unfold logonReply; fr_cases
 
-theorem fr_logonFinish (s : Sess) (m : InMsg) : Fr s (logonFinish s m).1 := by
-  unfold logonFinish; fr_cases
+theorem fr_nxEval (s : Sess) (m : InMsg) (ns : Int) : Fr s (nxEval s m ns).1 := by
+  unfold nxEval
+  fr_cases
+
+theorem fr_logonFinish (s : Sess) (m : InMsg) (ns : Int) : Fr s (logonFinish s m ns).1 := by
+  unfold logonFinish
+  have h : Fr s (nxEval (((s.setSentReset false).emit (.armPeer (1200 * s.hb))).emit .onLogon) m ns).1 :=
+    Fr.trans (by fr_peel) (fr_nxEval _ m ns)
+  generalize nxEval _ m ns = r at h
+  obtain ⟨x, o⟩ := r
+  cases o with
+  | some r => exact h
+  | none =>
+    dsimp only at h ⊢
+    fr_cases
+
+theorem fr_logonRefused (s : Sess) (m : InMsg) : Fr s (logonRefused s m) := by
+  unfold logonRefused
+  fr_cases
+
+theorem fr_logonTail (s : Sess) (m : InMsg) (ns : Int) : Fr s (logonTail s m ns).1 := by
+  unfold logonTail
+  split
+  · exact fr_logonRefused s m
+  · exact (fr_logonReply s m _).trans (fr_logonFinish _ m _)
 
 theorem fr_handleLogon (s : Sess) (m : InMsg) : Fr s (handleLogon s m).1 := by
   unfold handleLogon
@@ -289,7 +312,7 @@ theorem fr_handleLogon (s : Sess) (m : InMsg) : Fr s (handleLogon s m).1 := by
       have h4 := h3.trans hv2
       cases o2 with
       | some r => exact h4
-      | none => exact (h4.trans (fr_logonReply s4 m _)).trans (fr_logonFinish _ m)
+      | none => exact h4.trans (fr_logonTail s4 m _)
 
 theorem fr_inSessionFixMsgIn (s : Sess) (m : InMsg) : Fr s (inSessionFixMsgIn s m).1 := by
   unfold inSessionFixMsgIn
